@@ -99,8 +99,23 @@ impl Context
             {
                 use std::path;
 
-                let next_reference_id =
-                    Context::read_cached_next_reference_id(&loaded_config, config_dir)?;
+                let next_reference_id = match Context::read_cached_next_reference_id(
+                    &loaded_config,
+                    config_dir,
+                )
+                {
+                    Ok(id) => id,
+                    /*
+                     * Only a run that hands out reference IDs needs the lock file: checking works
+                     * without it, so there the problem is reported and the lock file ignored.
+                     */
+                    Err(e) if check_mode =>
+                    {
+                        log::warn!("[ref: 39] {}", e);
+                        None
+                    },
+                    Err(e) => return Err(e),
+                };
 
                 let mut loaded_context = Self {
                     config: loaded_config,
